@@ -147,7 +147,7 @@ theorem check_refines_spec (perms : Perms) (acc : Access) (client account op : S
   unfold check firstBearing
   by_cases hce : client.isEmpty = true
   · simp only [hce, ↓reduceIte]
-  · simp only [hce, ↓reduceIte]
+  · simp only [hce]
     cases hwa : walletAndAccount account with
     | none => rfl
     | some wa =>
@@ -155,7 +155,7 @@ theorem check_refines_spec (perms : Perms) (acc : Access) (client account op : S
       simp only
       by_cases hwe : w.isEmpty = true
       · simp only [hwe, ↓reduceIte]
-      · simp only [hwe, ↓reduceIte]
+      · simp only [hwe]
         rcases compilePerms_lookup regexify perms acc client hc with
           ⟨h1, h2⟩ | ⟨es, cs, h1, h2, h3, k, hmem⟩
         · rw [h1, h2]
@@ -218,4 +218,93 @@ theorem check_true_has_bearing (perms : Perms) (acc : Access) (client account op
   rw [this] at ht
   cases ht
 
+/-! ## The hypotheses are satisfiable on a concrete configuration
+
+Two clients; the first has an entry with a wallet and an account pattern (`w1/a.*`) and a negated item,
+the second a wallet-only entry (`w`, so the account pattern is empty = anything).  The parser facts are
+obtained by unfolding with `simp` (never by kernel evaluation of strings). -/
+
+namespace PermsRefineExample
+
+def exPerms : Perms := [("c1", [⟨"w1/a.*", ["~sign", "all"]⟩]), ("c2", [⟨"w", ["attest"]⟩])]
+
+theorem wa1 : walletAndAccount "w1/a.*" = some ("w1", "a.*") := by
+  simp [walletAndAccount, List.idxOf?, List.findIdx?_cons]
+
+theorem wa2 : walletAndAccount "w" = some ("w", "") := by
+  simp [walletAndAccount, List.idxOf?, List.findIdx?_cons]
+
+theorem wa3 : walletAndAccount "w/x" = some ("w", "x") := by
+  simp [walletAndAccount, List.idxOf?, List.findIdx?_cons]
+
+theorem sh1 : ShapeOK "w1" := by
+  simp [ShapeOK, regexify, rxBody, ReParse.parse, ReParse.pAlt, ReParse.pCat, ReParse.pAtom,
+    ReParse.pRep, Re.anch]
+
+theorem sh2 : ShapeOK "a.*" := by
+  simp [ShapeOK, regexify, rxBody, ReParse.parse, ReParse.pAlt, ReParse.pCat, ReParse.pAtom,
+    ReParse.pRep, ReParse.pRepEnd, Re.anch]
+
+theorem sh3 : ShapeOK "w" := by
+  simp [ShapeOK, regexify, rxBody, ReParse.parse, ReParse.pAlt, ReParse.pCat, ReParse.pAtom,
+    ReParse.pRep, Re.anch]
+
+theorem sh4 : ShapeOK "" := by
+  simp [ShapeOK, regexify, rxBody, ReParse.parse, ReParse.pAlt, ReParse.pCat, ReParse.pAtom,
+    ReParse.pRep, ReParse.pRepEnd, Re.anch]
+
+theorem exPerms_shape : PermsShapeOK exPerms := by
+  intro ce hce e he pw pa hwa
+  simp only [exPerms, List.mem_cons, List.not_mem_nil, or_false] at hce
+  rcases hce with rfl | rfl
+  · simp only [List.mem_cons, List.not_mem_nil, or_false] at he
+    subst he
+    rw [wa1] at hwa
+    cases hwa
+    exact ⟨sh1, sh2⟩
+  · simp only [List.mem_cons, List.not_mem_nil, or_false] at he
+    subst he
+    rw [wa2] at hwa
+    cases hwa
+    exact ⟨sh3, sh4⟩
+
+theorem exPerms_compiles : (compilePerms regexify exPerms).isSome = true := by
+  simp [exPerms, compilePerms, compileEntries, compileEntry, wa1, wa2, regexify, ReParse.parse,
+    ReParse.pAlt, ReParse.pCat, ReParse.pAtom, ReParse.pRep, ReParse.pRepEnd]
+
+/-- both hypotheses of `check_refines_spec` hold for `exPerms`, so the refinement applies to it for
+    every client, account and operation -/
+example : ∃ acc, compilePerms regexify exPerms = some acc ∧ PermsShapeOK exPerms ∧
+    ∀ client account op, check acc client account op = firstBearing exPerms client account op := by
+  obtain ⟨acc, hacc⟩ := Option.isSome_iff_exists.1 exPerms_compiles
+  exact ⟨acc, hacc, exPerms_shape, fun client account op =>
+    check_refines_spec exPerms acc client account op hacc exPerms_shape⟩
+
+/-- the hypothesis of `check_default_deny_spec` holds non-vacuously: client `c2` is known, has an
+    entry, and its only item `attest` does not bear on `sign` — so `sign` on `w/x` is refused -/
+example : ∃ acc, compilePerms regexify exPerms = some acc ∧ check acc "c2" "w/x" "sign" = false := by
+  obtain ⟨acc, hacc⟩ := Option.isSome_iff_exists.1 exPerms_compiles
+  refine ⟨acc, hacc, check_default_deny_spec exPerms acc "c2" "w/x" "sign" hacc exPerms_shape ?_⟩
+  intro w a es _ hl
+  have hes : es = [⟨"w", ["attest"]⟩] := by
+    simp [exPerms, List.lookup] at hl
+    exact hl.symm
+  subst hes
+  refine .inr (fun e he _ item hi => ?_)
+  simp only [List.mem_cons, List.not_mem_nil, or_false] at he
+  subst he
+  simp only [List.mem_cons, List.not_mem_nil, or_false] at hi
+  subst hi
+  simp [bearing, equalFold, lowerS, Re.lowerC]
+
+end PermsRefineExample
+
 end Dirk
+
+#print axioms Dirk.compilePerms_lookup
+#print axioms Dirk.compileEntries_filter_ops
+#print axioms Dirk.check_refines_spec
+#print axioms Dirk.check_default_deny_spec
+#print axioms Dirk.check_true_has_bearing
+#print axioms Dirk.PermsRefineExample.exPerms_shape
+#print axioms Dirk.PermsRefineExample.exPerms_compiles
